@@ -32,6 +32,7 @@ REGISTRY = {
     'stage1':   lambda repo, sd, canary=False: classes.build_stage1(repo, sd, canary=canary),
     'exprfrom': lambda repo, sd, canary=False: elim.build_whole(repo, sd, canary=canary),
     'clusterfrom': lambda repo, sd, canary=False: classes.build_cluster_from(repo, sd, canary=canary),
+    'dispatch': lambda repo, sd, canary=False: fmtunit.build_dispatch(repo, sd, canary=canary),
     'trie':     lambda repo, sd, canary=False: dfa.build_trie(repo, sd, canary=canary),
     'wasm':     lambda repo, sd, canary=False: bindings.build_wasm(repo, sd, canary=canary),
     'python':   lambda repo, sd, canary=False: bindings.build_python(repo, sd, canary=canary),
@@ -44,16 +45,16 @@ PROP_UNITS = {
     'C03': ['classify', 'gates', 'trie', 'atom', 'classes', 'stage1'],
     'C04': ['caseconv', 'regexp', 'render', 'builder'],
     'C05': ['trie', 'render', 'rep', 'splice', 'repeats', 'charcount', 'minimize', 'atom', 'stage1', 'clusterfrom'],
-    'C06': ['render', 'format', 'trie', 'rep', 'nested', 'indent', 'clusterfrom'],
-    'C07': ['expr', 'elim', 'matrix', 'regexp', 'builder', 'split', 'escaper', 'caseconv', 'rep', 'splice', 'gates', 'render', 'format', 'order', 'dfa', 'minimize', 'trie', 'cli', 'escape', 'classify', 'nested', 'indent', 'charcount', 'repeats', 'charclass', 'atom', 'classes', 'stage1', 'exprfrom', 'clusterfrom'],
+    'C06': ['render', 'format', 'trie', 'rep', 'nested', 'indent', 'clusterfrom', 'dispatch', 'expr'],
+    'C07': ['expr', 'elim', 'matrix', 'regexp', 'builder', 'split', 'escaper', 'caseconv', 'rep', 'splice', 'gates', 'render', 'format', 'order', 'dfa', 'minimize', 'trie', 'cli', 'escape', 'classify', 'nested', 'indent', 'charcount', 'repeats', 'charclass', 'atom', 'classes', 'stage1', 'exprfrom', 'clusterfrom', 'dispatch'],
     'C08': ['render', 'expr', 'regexp', 'format', 'indent'],
     'C09': ['tables', 'classify', 'classes'],
     'C10': ['builder', 'regexp', 'gates', 'order', 'dfa'],
-    'C11': ['escape', 'builder', 'format', 'nested', 'split'],
+    'C11': ['escape', 'builder', 'format', 'nested', 'split', 'dispatch', 'expr'],
     'C12': ['cli', 'gates', 'builder'],
     'C13': ['rep', 'splice', 'repeats', 'builder', 'render', 'trie', 'atom', 'stage1', 'clusterfrom'],
     'C14': ['python'],
-    'C15': ['render', 'indent'],
+    'C15': ['render', 'indent', 'dispatch', 'expr'],
     'C16': ['expr', 'elim', 'matrix', 'regexp', 'dfa', 'dfa_kf', 'minimize', 'trie', 'render', 'format', 'charcount', 'repeats', 'charclass', 'stage1', 'exprfrom', 'clusterfrom'],
     'C17': ['wasm'],
 }
